@@ -1,8 +1,7 @@
 import AdaptixModel.Protocol
 import AdaptixModel.Morph.Load
 import AdaptixModel.Morph.Dump
-import AdaptixModel.MiniPy.Eval
-import AdaptixModel.Generated.Scalars
+import AdaptixModel.Morph.Scalars
 
 namespace Adaptix.Ops.Morph
 open Lean Adaptix.Protocol Adaptix.Py Adaptix.Morph
@@ -153,31 +152,16 @@ def decDumpRow (j : Json) : Except String DumpRow := do
     | _ => throw "bad dump outcome"
   return { scalar := ← fieldStr j "scalar", value := ← decVal (← field j "value"), out := out }
 
-def factsOf (d : Val) : MiniPy.Facts :=
-  match Generated.Scalars.tagFacts.find? (fun f => f.tag == d.tag) with
-  | some f => f
-  | none => { tag := d.tag, ancestors := [], isNone := false }
-
-def isLoadErrorClass (e : String) : Bool := (Generated.Scalars.excAncestors e).contains "LoadError"
-
 /-- a scalar leaf: run the TRANSLATED closure of the working tree on the datum, with the call
     sites answered by the outcomes the harness observed on the real stdlib -/
-def scalarLoad (rows : List SiteRow) (strict : Bool) (s : String) (d : Val) : Outcome Val :=
-  match Generated.Scalars.closures.find? (fun c => c.1 == (s, strict)) with
-  | none => .escape s!"NoTranslatedClosure:{s}"
-  | some (_, prog, _) =>
-    let outs := match rows.find? (fun r => r.scalar == s && r.strict == strict && Val.same r.datum d) with
-      | some r => r.outs
-      | none => []
-    let env : MiniPy.Env Val := {
-      ancestors := Generated.Scalars.excAncestors, data := d, noneV := .none, facts := factsOf d,
-      site := fun n => match outs.find? (fun p => p.1 == n) with
-        | some p => p.2
-        | none => .raises "MissingSiteOutcome" }
-    match MiniPy.runClosure env prog with
-    | .ret v => .ok v
-    | .cont => .ok .none
-    | .raised e => if isLoadErrorClass e then .err (LErr.leaf e d) else .escape e
+def siteOracle (rows : List SiteRow) : SiteOracle := fun strict s d n =>
+  match rows.find? (fun r => r.scalar == s && r.strict == strict && Val.same r.datum d) with
+  | some r => (match r.outs.find? (fun p => p.1 == n) with
+    | some p => p.2
+    | none => .raises "MissingSiteOutcome")
+  | none => .raises "MissingSiteOutcome"
+
+def scalarLoad (rows : List SiteRow) : Bool → String → Val → Outcome Val := scalarLoadGen (siteOracle rows)
 
 def scalarDump (rows : List DumpRow) (s : String) (x : Val) : Outcome Val :=
   if Generated.Scalars.asIsDumpScalars.contains s then .ok x
